@@ -6,6 +6,7 @@
 #include <errno.h>
 #include <dirent.h>
 #include <dlfcn.h>
+#include <pthread.h>
 
 extern "C" void __sanitizer_set_death_callback(void (*cb)(void)) __attribute__((weak));
 extern "C" int __lsan_do_recoverable_leak_check(void) __attribute__((weak));
@@ -128,6 +129,8 @@ void endCase(u64 fp, bool nontrivial) {
   ctx = "between-cases";
 }
 
+static void* dummyThread(void*) { return 0; }
+
 void init(int argc, char** argv, const char* harnessName) {
   g_harness = harnessName;
   opts.seed = 1; opts.cases = 100; opts.start = 0; opts.mode = "default"; opts.out = "/verif/replays"; opts.exclude = ""; opts.replay = 0; opts.probe = 0; opts.scale = 1; opts.shard = 0; opts.nshards = 1; opts.rec = 0;
@@ -150,7 +153,9 @@ void init(int argc, char** argv, const char* harnessName) {
   char p[512]; snprintf(p, sizeof p, "%s/fp.%s.%d.bin", opts.out, harnessName, (int)getpid());
   g_fpfd = open(p, O_WRONLY | O_CREAT | O_TRUNC, 0666);
   printf("@FPFILE %s\n", p);
-  { // threads that exist before the workload starts belong to the sanitizer runtime (ignored by the deadlock detector)
+  { // threads that exist before the workload starts belong to the sanitizer runtime (ignored by the deadlock detector).
+    // TSan starts its background thread lazily with the first pthread_create, so create (and join) one dummy thread first.
+    pthread_t dummy; if (pthread_create(&dummy, 0, dummyThread, 0) == 0) pthread_join(dummy, 0);
     char line[512]; int k = snprintf(line, sizeof line, "@BGTIDS"); DIR* d = opendir("/proc/self/task");
     if (d) { struct dirent* e; while ((e = readdir(d))) { int t = atoi(e->d_name); if (t > 0 && t != (int)getpid() && k < 480) k += snprintf(line + k, sizeof line - (size_t)k, " %d", t); } closedir(d); }
     printf("%s\n", line);
